@@ -46,6 +46,14 @@ CHECKS = {
         design_ref="DESIGN.md §5 C07, §3 E3", note=STATIC_NOTE + " Fields are keyed by (class family, attribute); two-level object abstraction; "
              "unresolved callees are assumed not to mutate their arguments (count reported in evidence).",
         technique="static analysis: interprocedural ownership/effect (taint) analysis with call-site specialisation, field sensitivity, flow-sensitive locals"),
+    "C14": dict(
+        text="Static over all 19 filter classes: include() guards every filter() call; no per-call state outside a fresh self.context; "
+             "typestate 'context read only after set_context' on every __call__; mutation-then-constant-False-return paths excluded "
+             "(CFG path rule with mutation summaries of helper functions and a flag-feasibility refinement); every glyph-set insertion / "
+             "deletion is reported; ownership analysis seeded at the filters' font parameter shows no write to the font (6 listed known "
+             "findings); include+exclude raise. Does not decide that reported/unreported glyphs really did/did not change.",
+        design_ref="DESIGN.md §5 C14, §3 E3/E8", note=STATIC_NOTE,
+        technique="static analysis: typestate via dominators, CFG path rules with interprocedural mutation summaries, ownership analysis, guard entailment"),
 }
 
 _TODO = "check not built yet in this session (static rules designed in DESIGN.md §5; will be claimed when the rule set is armed)"
